@@ -7,6 +7,10 @@ CHECKS = {
    "Generated-input search (grammar documents and byte-mutated ones, widths 1..=120, bounded option mixes) against the validity predicate `every line of Ok output has display width <= width`. Finds over-wide lines in the explored space; no absence proof.",
    "Trusted: unicode-width as the measure (min of per-char sum and string width, so control characters in link targets are not counted); proptest generators; documents up to ~100 nodes.",
    "property-based testing (proptest; validity predicate over generated and byte-mutated documents)"),
+ "C03": ("exploration",
+   "Conservation oracle against an independent oracle DOM (the harness's own html5ever TreeSink): one identifying character per text node turns lost / duplicated / reordered / invented text into sequence and multiset comparisons (sequence for table-free documents and raw mode; multiset plus per-cell order for tables); every non-pool visible character must be in the decorator's markup alphabet. Byte-mutated documents are compared under the trivial decorator.",
+   "Trusted: html5ever; whitespace and control characters are outside the claim; three input classes are known findings (starved colspan cell, caption, stray ol/dl children) and excluded by construction / predicate.",
+   "property-based testing (proptest) against an independent oracle DOM (conservation / differential)"),
  "C04": ("exploration",
    "Reference-model oracle: an independent greedy wrapper. Bounded-exhaustive over all sequences of <=3 (quick) / <=5 (thorough) words from an 11-word set x widths 1..=9, plus random paragraphs (<=60 words, 12 separator kinds, text cut over inline elements/text nodes, max_wrap_width, prefixed blocks) x width 1..=40; line lists must be equal and Err <=> a character wider than the line.",
    "Trusted: the 30-line reference wrapper; words have display width >= 1.",
